@@ -6,6 +6,7 @@
    With  --print  it prints the model result for every line instead (used by the vm_compute cross-run).
    Everything semantic is extracted code; this file only parses and prints. *)
 open Model
+type string = Stdlib.String.t
 
 (* ---------- s-expressions ---------- *)
 type sx = A of string | L of sx list
